@@ -13,7 +13,7 @@ Record case := {
 Definition mout_eqb (a b : mout) : bool :=
   match a, b with
   | MDone, MDone | MKeyError, MKeyError | MIndexError, MIndexError | MRefused, MRefused | MPassthrough, MPassthrough
-  | MIdentity, MIdentity => true
+  | MIdentity, MIdentity | MRaised, MRaised => true
   | MReply x, MReply y => json_equiv x y
   | _, _ => false end.
 Definition calls_json (cs : list (string * list (string * list params))) : list (string * list (string * list json)) :=
@@ -35,36 +35,49 @@ Fixpoint qget (k : key) (q : queues) : list patch := match q with [] => [] | (k'
 Fixpoint qset (k : key) (l : list patch) (q : queues) : queues :=
   match q with [] => [(k, l)] | (k', l') :: r => if key_eqb k k' then (k, l) :: r else (k', l') :: qset k l r end.
 Definition endpoint_live (ep : string) (q : queues) : bool := existsb (fun e => String.eqb (fst (fst e)) ep && match snd e with [] => false | _ => true end) q.
-Definition expected_reply (p : patch) (r : request) : json :=
-  resp_to_json match p_kind p with
-               | PCallback tag => RResult (r_id r) (callback_value tag (r_params r))
-               | PResult v => RResult (match r_id r with Some i => Some i | None => p_id p end) v
-               | PError e => RError (match r_id r with Some i => Some i | None => p_id p end) e end.
+Inductive sout := SNone | SDoc (d : json) | SRaise.      (* -32601 | the configured reply | serving the patch raises *)
+Definition expected_reply (p : patch) (r : request) : sout :=
+  match p_kind p with
+  | PCallback tag => SDoc (resp_to_json (RResult (r_id r) (callback_value tag (r_params r))))
+  | PResult v => SDoc (resp_to_json (RResult (match r_id r with Some i => Some i | None => p_id p end) v))
+  | PError e => SDoc (resp_to_json (RError (match r_id r with Some i => Some i | None => p_id p end) e))
+  | PRaise => SRaise end.
 Definition is_nf (doc : json) (r : request) : bool :=
   match doc with
   | JObj kvs => option_eqb json_eqb (get "id" kvs) (Some (id_json (r_id r)))
                 && match get "error" kvs with Some (JObj e) => option_eqb json_eqb (get "code" e) (Some (JInt MethodNotFoundError_code)) | _ => false end
   | _ => false end.
 (* one request against the queues: the expected reply (None = -32601) and the new queues *)
-Definition serve (q : queues) (ep : string) (r : request) : option json * queues :=
+(* the patch is used (taken from the front, put at the back unless `once`) whether or not serving it then raises *)
+Definition serve (q : queues) (ep : string) (r : request) : sout * queues :=
   match qget (ep, r_method r) q with
-  | [] => (None, q)
-  | p :: rest => (Some (expected_reply p r), qset (ep, r_method r) (if p_once p then rest else rest ++ [p]) q)
+  | [] => (SNone, q)
+  | p :: rest => (expected_reply p r, qset (ep, r_method r) (if p_once p then rest else rest ++ [p]) q)
   end.
-Fixpoint replace_at {A} (n : nat) (x : A) (l : list A) : option (list A) :=
-  match l, n with [], _ => None | _ :: t, O => Some (x :: t) | a :: t, S k => option_map (cons a) (replace_at k x t) end.
+Fixpoint replace_at_nat {A} (n : nat) (x : A) (l : list A) : option (list A) :=
+  match l, n with [], _ => None | _ :: t, O => Some (x :: t) | a :: t, S k => option_map (cons a) (replace_at_nat k x t) end.
+(* list[idx] = x : a negative index counts from the end *)
+Definition replace_at {A} (idx : Z) (x : A) (l : list A) : option (list A) :=
+  let n := Z.of_nat (List.length l) in
+  if (0 <=? idx)%Z then replace_at_nat (Z.to_nat idx) x l
+  else if (0 <=? n + idx)%Z then replace_at_nat (Z.to_nat (n + idx)) x l else None.
 
 (* a batch is answered element by element; if a reply would carry an id already used by an earlier reply of the same batch the
    replies cannot be assembled (IdentityError) and the remaining elements are not looked at *)
-Fixpoint serve_batch (q : queues) (ep : string) (rs : list request) (seen : list idv) : list (option json * request) * queues * bool :=
+Inductive bstop := BDone | BDuplicate | BRaise.
+Fixpoint serve_batch (q : queues) (ep : string) (rs : list request) (seen : list idv) : list (sout * request) * queues * bstop :=
   match rs with
-  | [] => ([], q, false)
+  | [] => ([], q, BDone)
   | r :: rest =>
       let '(e, q') := serve q ep r in
-      match (match e with Some d => doc_id d | None => r_id r end) with
-      | Some i => if mem_id i seen then ([(e, r)], q', true)
-                  else let '(l, q'', ab) := serve_batch q' ep rest (i :: seen) in ((e, r) :: l, q'', ab)
-      | None => let '(l, q'', ab) := serve_batch q' ep rest seen in ((e, r) :: l, q'', ab)
+      match e with
+      | SRaise => ([(e, r)], q', BRaise)          (* the exception leaves the batch loop: later elements are not looked at *)
+      | _ =>
+        match (match e with SDoc d => doc_id d | _ => r_id r end) with
+        | Some i => if mem_id i seen then ([(e, r)], q', BDuplicate)
+                    else let '(l, q'', ab) := serve_batch q' ep rest (i :: seen) in ((e, r) :: l, q'', ab)
+        | None => let '(l, q'', ab) := serve_batch q' ep rest seen in ((e, r) :: l, q'', ab)
+        end
       end
   end.
 
@@ -90,8 +103,9 @@ Fixpoint ok_run (pt : bool) (q : queues) (ops : list mop) (outs : list mout) : b
           if negb (endpoint_live ep q) then mout_eqb x (if pt then MPassthrough else MRefused) && ok_run pt q ops' outs'
           else let '(e, q') := serve q ep r in
                match x, e with
-               | MReply doc, Some d => json_equiv doc d
-               | MReply doc, None => is_nf doc r
+               | MReply doc, SDoc d => json_equiv doc d
+               | MReply doc, SNone => is_nf doc r
+               | MRaised, SRaise => true
                | _, _ => false end && ok_run pt q' ops' outs'
       | MBatch ep rs =>
           if negb (endpoint_live ep q) then mout_eqb x (if pt then MPassthrough else MRefused) && ok_run pt q ops' outs'
@@ -99,9 +113,10 @@ Fixpoint ok_run (pt : bool) (q : queues) (ops : list mop) (outs : list mout) : b
             let '(es, q', aborted) := serve_batch q ep rs [] in
             match x with
             | MReply (JArr docs) =>
-                negb aborted && Nat.eqb (List.length docs) (List.length es)
-                && forallb (fun de => match snd de with (Some d, _) => json_equiv (fst de) d | (None, r) => is_nf (fst de) r end) (combine docs es)
-            | MIdentity => aborted
+                match aborted with BDone => true | _ => false end && Nat.eqb (List.length docs) (List.length es)
+                && forallb (fun de => match snd de with (SDoc d, _) => json_equiv (fst de) d | (SNone, r) => is_nf (fst de) r | (SRaise, _) => false end) (combine docs es)
+            | MIdentity => match aborted with BDuplicate => true | _ => false end
+            | MRaised => match aborted with BRaise => true | _ => false end
             | _ => false end && ok_run pt q' ops' outs'
       end
   | _, _ => false
@@ -125,13 +140,13 @@ Fixpoint expected_calls (q : queues) (ops : list mop) (acc : list (key * list js
       | MCall ep r =>
           if endpoint_live ep q
           then let '(e, q') := serve q ep r in
-               expected_calls q' ops' (match e with Some _ => rec_call (ep, r_method r) (params_json (r_params r)) acc | None => acc end)
+               expected_calls q' ops' (match e with SNone => acc | _ => rec_call (ep, r_method r) (params_json (r_params r)) acc end)
           else expected_calls q ops' acc
       | MBatch ep rs =>
           if endpoint_live ep q then
             let '(es, q', _) := serve_batch q ep rs [] in
             expected_calls q' ops'
-              (fold_left (fun a er => match fst er with Some _ => rec_call (ep, r_method (snd er)) (params_json (r_params (snd er))) a | None => a end) es acc)
+              (fold_left (fun a er => match fst er with SNone => a | _ => rec_call (ep, r_method (snd er)) (params_json (r_params (snd er))) a end) es acc)
           else expected_calls q ops' acc
       end
   end.
